@@ -27,7 +27,7 @@ from drivers import websession_text as TX
 
 CLAUSES = {1: 'Delivered', 2: 'TargetOK', 3: 'OneHostOK', 4: 'AuthOK', 5: 'CookieOK', 6: 'RefererOK',
            7: 'WellFormed', 8: 'BoundOK', 9: 'EndsOK'}
-FIX_COPY = os.environ.get('VERIF_C16_FIX_COPY', 'FALSE')
+FIX_COPY = os.environ.get('VERIF_C16_FIX_COPY', 'TRUE')
 REDIRECTS = (301, 302, 303, 307, 308)
 
 
